@@ -4,6 +4,7 @@ import (
 	"bufio"
 	"bytes"
 	"fmt"
+	"math"
 	"net"
 	"strconv"
 	"strings"
@@ -144,15 +145,38 @@ func (rc *rconn) do(args [][]byte, timeout time.Duration) (reps []reply, closed 
 // ---------- the live node ----------
 
 type liveNode struct {
-	inst *srv.Inst
-	nd   *node.KVNode
-	st   *node.KVStore
-	rc   *rconn
-	port int
+	inst     *srv.Inst
+	nd       *node.KVNode
+	st       *node.KVStore
+	rc       *rconn
+	port     int
 	lastReps []reply
 }
 
+// freeBase returns the first base b >= port (step 3, inside 34000..34999) whose three ports can be
+// bound right now: the range overlaps the kernel's ephemeral ports, so a port may be taken by an
+// unrelated outgoing connection.
+func freeBase(port int) int {
+	for k := 0; k < 300; k++ {
+		b := 34000 + (port-34000+3*k)%996
+		ok := true
+		for d := 0; d < 3; d++ {
+			l, err := net.Listen("tcp", ":"+strconv.Itoa(b+d))
+			if err != nil {
+				ok = false
+				break
+			}
+			l.Close()
+		}
+		if ok {
+			return b
+		}
+	}
+	return port
+}
+
 func startNode(port int, engine string) (*liveNode, error) {
+	port = freeBase(port)
 	inst, err := srv.Start(port, NS, 1, engine)
 	if err != nil {
 		return nil, err
@@ -226,12 +250,12 @@ func (ln *liveNode) facts(args [][]byte) string {
 	}
 	cls := func(n int64, err error) string {
 		if err != nil {
-			return "e"
+			return "n:e"
 		}
 		if n == 0 {
-			return "0"
+			return "n:0"
 		}
-		return "p"
+		return "n:p"
 	}
 	switch name {
 	case "lpop", "rpop", "ltrim":
@@ -241,21 +265,21 @@ func (ln *liveNode) facts(args [][]byte) string {
 	case "setnx":
 		n, _ := ln.st.KVExists(key)
 		if n == 1 {
-			return "1"
+			return "x:1"
 		}
-		return "0"
+		return "x:0"
 	case "setifeq", "delifeq":
 		if len(args) < 3 {
 			return "-"
 		}
 		v, err := ln.st.KVGet(key)
 		if err != nil {
-			return "e"
+			return "g:e"
 		}
 		if bytes.Equal(v, args[2]) {
-			return "eq"
+			return "g:eq"
 		}
-		return "ne"
+		return "g:ne"
 	case "sadd", "srem":
 		var b strings.Builder
 		for _, m := range args[2:] {
@@ -269,7 +293,7 @@ func (ln *liveNode) facts(args [][]byte) string {
 		if b.Len() == 0 {
 			return "-"
 		}
-		return b.String()
+		return "b:" + b.String()
 	case "zrem":
 		var b strings.Builder
 		for _, m := range args[2:] {
@@ -283,9 +307,38 @@ func (ln *liveNode) facts(args [][]byte) string {
 		if b.Len() == 0 {
 			return "-"
 		}
-		return b.String()
+		return "b:" + b.String()
 	}
 	return "-"
+}
+
+// floatTable: the verdict of the real strconv.ParseFloat for every (short) argument and for its
+// variant without a leading '(' (node/zset.go getScoreRange): "hexarg:hexbits" or "hexarg:e".
+func floatTable(args [][]byte) string {
+	seen := map[string]bool{}
+	var out []string
+	add := func(a []byte) {
+		if len(a) == 0 || len(a) > 64 || seen[string(a)] {
+			return
+		}
+		seen[string(a)] = true
+		f, err := strconv.ParseFloat(string(a), 64)
+		if err != nil {
+			out = append(out, fmt.Sprintf("%x:e", a))
+		} else {
+			out = append(out, fmt.Sprintf("%x:%x", a, math.Float64bits(f)))
+		}
+	}
+	for _, a := range args {
+		add(a)
+		if len(a) > 1 && a[0] == '(' {
+			add(a[1:])
+		}
+	}
+	if len(out) == 0 {
+		return "-"
+	}
+	return strings.Join(out, ",")
 }
 
 type nodeObs struct {
